@@ -18,7 +18,7 @@ func init() {
 		ID:    "C13",
 		Level: "fault_enumeration",
 		Rule: "all chains of <=2 (thorough <=3 over a reduced alphabet) steps over a 30-step alphabet (property calls with arguments, operator property calls, user methods, absent and non-callable properties, literal calls returning value/nil, " +
-			"raising each of 10 error kinds explicitly and failing naturally, variable call) x 5 receivers x 11 accessors; each wrapped chain `v.try.s1.s2.acc` is compared with what the outcome of the plain chain `v.s1.s2` (same batch) implies, including the stdout trace (skip after failure); " +
+			"raising each of 10 error kinds explicitly and failing naturally, variable call) x 6 receivers x 11 accessors, plus the chain without any step over 13 receivers (incl. results of earlier try chains, successful and failed, a function, prototypes); each wrapped chain `v.try.s1.s2.acc` is compared with what the outcome of the plain chain `v.s1.s2` (same batch) implies, including the stdout trace (skip after failure); " +
 			"non-trivial = chain with at least one failing step or an accessor that distinguishes value from error; distinct = distinct (receiver, steps, accessor)",
 		Assumptions: []string{
 			"steps named like the Either API itself (val, err, A, or, ...) are not generated; infix operators applied to the wrapper are not of the form v.try.f and are not generated",
@@ -31,6 +31,9 @@ func init() {
 const prelude = `oo := {v: 1, f: m{|x| "uf".p; x}, bad: m{"ub".p; raise ValueErr.new("vm")}, w: m{{v: 2}}, err1: m{1.try.{|n| raise TypeErr.new("captured")}.err}, kw: m{|a, k: 0| "uk".p; raise ValueErr.new("kbig") if k > 5; a + k}}
 idf := {|x| "vc".p; x}
 ew := 1.try./(0).err
+ev := 5.try
+ee := 5.try./(0)
+een := nil.try.{|x| raise TypeErr.new("inner")}
 `
 
 type step struct {
@@ -204,6 +207,9 @@ func keyOf(t tcase, class string, plain, w panrun.Obs) string {
 
 func judge(c *core.Ctx, t tcase, plain, w panrun.Obs) {
 	c.Validated(1)
+	if len(t.Steps) == 0 {
+		c.Nontrivial(1)
+	}
 	if plain.Kind == "syntax" || w.Kind == "syntax" {
 		c.HarnessError("generated chain does not parse: %s / %s: %s %s", t.plain(), t.wrapped(), plain.ErrMsg, w.ErrMsg)
 		return
@@ -263,6 +269,12 @@ func gen(thorough bool, emit func(tcase)) {
 	}
 	for _, r := range receivers {
 		rec(r, nil, alpha, 2)
+	}
+	// chains without any step: v.try holds v, for every receiver - including the results of earlier try chains
+	for _, r := range append(append([]string{}, receivers...), "ev", "ee", "een", "[ev, ee]", "{|x| x}", "Int", "Either") {
+		for a := range accessors {
+			emit(tcase{Recv: r, Acc: a})
+		}
 	}
 	if thorough {
 		red := reducedAlphabet()
